@@ -106,7 +106,7 @@ fn annotate(step: &mut Value) -> Result<Option<ObjectSchema>, String> {
 
 pub fn eval(op: &str, input: &mut Value) -> OpResult {
   match op {
-    "cache.canon" => {
+    "cache.canon" | "cache.canon_perm" => {
       let schemas = input["schemas"].as_array().cloned().ok_or("no schemas")?;
       let mut values = vec![];
       let mut out = vec![];
